@@ -266,6 +266,27 @@ func runC01(c *core.Ctx, idx int) {
 				// lookups by id first: ids with and without child data
 				e = qx.Cmp{L: qx.LHS{Kind: "sym", Sym: "id"}, Op: core.Pick(r, []string{"=", "=", "in"}), R: []qx.Lit{qx.LStr(thingIds[k])}}
 			}
+			if store == qx.Owners && !viaKidlist && k < 5 {
+				c.Count("scripted_counts_over_an_application_kept_id_list", 1)
+				// every member of the application-kept id list, counted (the list also holds ids that name nothing)
+				all := &qx.SubQ{Set: "favlist", Q: &qx.Query{Pred: qx.Const{V: true}}}
+				if k == 4 {
+					e = qx.IsEmpty{Sub: all}
+				} else {
+					// (at least k members: the same answer whether or not the empty string counts as one, unless it decides)
+					e = qx.Cmp{L: qx.LHS{Kind: "count", Sub: all}, Op: ">=", R: []qx.Lit{qx.LInt(int64(k + 1))}}
+				}
+			}
+			if viaKidlist && k < 5 {
+				// every member of the set typed to the child store, counted: the list also holds ids without child data and,
+				// for some owners, the empty string
+				all := &qx.SubQ{Set: "kidlist", Q: &qx.Query{Pred: qx.Const{V: true}}}
+				if k == 4 {
+					e = qx.IsEmpty{Sub: all}
+				} else {
+					e = qx.Cmp{L: qx.LHS{Kind: "count", Sub: all}, Op: "=", R: []qx.Lit{qx.LInt(int64(k))}}
+				}
+			}
 			q := &qx.Query{Pred: e}
 			if depth >= 2 && k%3 == 2 && !viaChild {
 				// precedence instead of parentheses: not > and > or; every third of those is a scripted chain
